@@ -77,8 +77,10 @@ def lv(e):
     e = cf.strip_casts(e)
     if not isinstance(e, dict):
         return '?'
-    if e.get('k') == 'call':
-        e = cf.strip_casts(cf.inline_pure(e))   # predicate factored out into a `return <expr>` helper
+    if e.get('k') == 'call' and '*' not in (e.get('ty') or ''):
+        # a predicate / value computation factored out into a `return <expr>` helper; accessors returning pointers (JOBS(state, off))
+        # stay opaque whatever the shape of their body
+        e = cf.strip_casts(cf.inline_pure(e))
     v = cf.evalc(e)
     if v is not None:
         return str(v)
